@@ -459,9 +459,9 @@ package valid
 
 //@ func dir
 //@   modifies nothing
-//@   ensures (result1 == nil) <==> statOk(path)
-//@   ensures statOk(path) ==> result0 == statIsDir(path)
-//@   ensures result1 != nil ==> !result0
+//@   ensures [C05 dir.stat] (result1 == nil) <==> statOk(path)
+//@   ensures [C05 dir.stat] statOk(path) ==> result0 == statIsDir(path)
+//@   ensures [C05 dir.stat] result1 != nil ==> !result0
 
 // GetTimeFmt: the layouts the date rules hand to time.Parse (d, dt, t are the separators in force)
 //@ func GetTimeFmt$1
@@ -710,6 +710,10 @@ package valid
 //@   loop#1 exhaustive [C02 C04 C17 walk.all]
 //@   requires vs.ok(v) && cache.inv()
 //@   ensures [C08 entry.inv] cache.inv()
+//@   at call validate#0 assert [C16 valid.nested] arg1 != ""
+//@   at call validate#1 assert [C16 valid.nested] arg1 != ""
+//@   at call validate#2 assert [C16 valid.outer] arg1 == "" && v.ruleMap == old(v.ruleMap)
+//@   modifies sb.content(v.errBuf), sb.nw(v.errBuf), v.ruleMap, v.vc, cache.stored, lst.mem, lst.stamp, lst.size, mu.held, mu.acq, cb.count, cb.key, cb.val, "H.container/list.Element.Value", "H.valid.validCommon.valid2FieldsMap", "MapDom.String.Slice", "MapVal.String.Slice", "MapLen.String.Slice", "Mem.Int"
 //@   loop#0 invariant vs.ok(v) && cache.inv()
 //@   loop#1 invariant vs.ok(v) && cache.inv() && iter != nil && mi.src(iter) == reflectValue && mi.pos(iter) >= -1
 
@@ -725,10 +729,23 @@ package valid
 //@   modifies sb.content(v.errBuf), v.ruleObj, v.vc
 //@   ensures [C11 C12 free.clean] v.ruleObj == nil && v.vc == nil && sb.content(v.errBuf) == ""
 
+// C14/C16: Set adds, for every comma-separated field name, the rules joined by commas — appended to what the field
+// already had, behind a comma. J is the joined rule text (a function of the rules slice and its contents).
 //@ func (RM).Set
+//@   let J = strJoinH(strheap(), rules, ",")
+//@   let n = splitCount(filedNames, ",")
 //@   requires [C13 rm.nil] r != nil
 //@   modifies mapof(r)
 //@   ensures result == r
+//@   ensures [C14 C16 set.fields] (forall(i Int, j Int :: 0 <= i && i < j && j < n ==> splitAt(filedNames, ",", i) != splitAt(filedNames, ",", j))) ==>
+//@       forall(j Int :: {splitAt(filedNames, ",", j)} 0 <= j && j < n ==> has(r, splitAt(filedNames, ",", j)) &&
+//@          r[splitAt(filedNames, ",", j)] == ite(old(has(r, splitAt(filedNames, ",", j))), old(r[splitAt(filedNames, ",", j)]) ++ "," ++ J, J))
+//@   ensures [C14 C16 set.others] forall(k String :: {has(r, k)} (forall(j Int :: 0 <= j && j < n ==> k != splitAt(filedNames, ",", j))) ==> has(r, k) == old(has(r, k)) && r[k] == old(r[k]))
+//@   loop#0 invariant -1 <= rangeindex && rangeindex < n && n >= 1
+//@   loop#0 invariant (forall(i Int, j Int :: 0 <= i && i < j && j < n ==> splitAt(filedNames, ",", i) != splitAt(filedNames, ",", j))) ==>
+//@       forall(j Int :: {splitAt(filedNames, ",", j)} 0 <= j && j <= rangeindex ==> has(r, splitAt(filedNames, ",", j)) &&
+//@          r[splitAt(filedNames, ",", j)] == ite(old(has(r, splitAt(filedNames, ",", j))), old(r[splitAt(filedNames, ",", j)]) ++ "," ++ J, J))
+//@   loop#0 invariant forall(k String :: {has(r, k)} (forall(j Int :: 0 <= j && j <= rangeindex ==> k != splitAt(filedNames, ",", j))) ==> has(r, k) == old(has(r, k)) && r[k] == old(r[k]))
 
 //@ func (*VVar).SetRules
 //@   requires vv.ok(v) && v.ruleObj != nil
@@ -932,6 +949,9 @@ package valid
 //@   modifies sb.content(errBuf), sb.nw(errBuf)
 //@   ensures [C02 re.once] sb.nw(errBuf) <= old(sb.nw(errBuf)) + 1 && prefixof(old(sb.content(errBuf)), sb.content(errBuf))
 //@   loop#0 invariant splitIndex >= 0 && splitIndex + 1 <= i && i <= l - 1 && l == len(validName) && fresh(sliceptr(b))
+//@   loop#0 invariant [C15 re.scan] splitIndex == indexof(validName, "'") && forall(k Int :: {byteAt(validName, k)} splitIndex + 1 <= k && k < i ==> !(byteAt(validName, k) != 92 && byteAt(validName, k+1) == 39))
+//@   at call GetJoinValidErrStr#1 assert [C15 re.msg] byteAt(validName, i+1) == 39 && byteAt(validName, i) != 92 && len(others) == 1 && others[0] != "" && others[0] == ParseValidNameKV.cusMsg(validName[:splitIndex] ++ validName[i+1:])
+//@   at call GetJoinValidErrStr#0 assert [C15 re.default] byteAt(validName, i+1) == 39 && byteAt(validName, i) != 92 && ParseValidNameKV.cusMsg(validName[:splitIndex] ++ validName[i+1:]) == ""
 //@   loop#0 decreases l - i
 
 //@ func Ints
